@@ -22,13 +22,25 @@ TRUSTED = [
     'MySQL default string-literal escapes (documentation model, not executed)',
     'the placeholder tokeniser of the harness (regular expressions over the real SQL text outside quoted sections) and the driver shim used by the '
     'end-to-end search to run format / pyformat / numeric statements on SQLite (sql % markers, :N -> ?N)',
+    'literals other than str / bytes: translator c06lit.py (Value.__str__ and the three subclasses per kind of value, isinstance folded with the class hierarchy); '
+    'reference models of str(int), repr of an integer-valued float, Decimal.__str__, date.isoformat (Model/C06Lit.v, compared with CPython through the real classes '
+    'on every run); the C07 builder\'s models and lemmas for datetime2timestamp / timedelta2str / strptime / timestamp2datetime / str2timedelta (read-only reuse; '
+    'Gen/C07Codec.v is regenerated here too); the readers of numeric / null / boolean / DATE / TIMESTAMP / INTERVAL literals written from documentation '
+    '(SQLite forms executed on the linked SQLite)',
+    'tokeniser model Model/C06Tok.v (token classes of a small SQL lexer) and the four statement skeletons: their texts are compared with the real SQLBuilder output and '
+    'the tokeniser is run on the REAL text by vm_compute; statements outside the four skeletons are not covered by the tokeniser theorem',
+    're-execution: translator c06pin.py (abstract execution of the cache-miss paths that write fixed_param_values) and the hand-written model of '
+    'Query._get_translator\'s validity test (Model/C06Pin.v), exercised end to end by histories compared with cold-cache runs',
 ]
 ASSUMPTIONS = [
     'strings are sequences of Unicode code points without U+0000 and without lone surrogates (sqlite3 refuses NUL in statement text)',
     'format / pyformat drivers apply Python %-formatting to the statement whenever an argument object is supplied; Pony supplies one (tuple or dict) '
     'for every statement built by SQLBuilder',
     'floats that are not integer-valued, Decimal in E-notation / negative zero, SQLite timedelta literals that are not whole days are outside the theorems (correspondence / search only)',
-    'MySQL and PostgreSQL servers are not available: MySQL literal rules and the identifier-with-% finding are judged under documentation models',
+    'MySQL and PostgreSQL servers are not available: MySQL literal rules, the identifier-with-% finding, the LIKE default-escape finding and the DATE / TIMESTAMP / INTERVAL '
+    'literal forms of PostgreSQL / MySQL / Oracle are judged under documentation models',
+    'dates and datetimes have years 1..9999 (Python\'s range); timedeltas are normalised (0 <= seconds < 86400, 0 <= microseconds < 10^6), days unbounded; '
+    'the sign of an inline integer counts as part of the statement skeleton (-5 is two tokens)',
 ]
 RULE = ('adversarial strings built from atoms (quotes, doubled quotes, backslash, %, %%, _, !, placeholder look-alikes, $, non-ASCII, newline) alone, in pairs '
         'and in seeded random concatenations x five paramstyles x four provider classes; random expression trees with repeated paramkeys for the layout; '
